@@ -477,6 +477,77 @@ func c02Big(c *rt.Ctx, fsType string, r *rand.Rand) {
 	c02Scenario(c, fsType, nil, prog, fl)
 }
 
+// c02Owner: handles held by an ordinary user while the mode of the file changes under them. What a descriptor may
+// do is decided when it is opened: a handle opened for writing keeps writing and truncating after the file lost its
+// write bits, one opened for reading never writes. Every step is issued by a MemFS view of that user and by the
+// kernel under the same fsuid/fsgid, and compared.
+func c02Owner(c *rt.Ctx, r *rand.Rand) {
+	if err := kern.Reset(0); err != nil {
+		c.Rep.Inconclusive = append(c.Rep.Inconclusive, "kernel reset failed: "+err.Error())
+		return
+	}
+	m, users := newMemWithUsers()
+	_ = m.SetUMask(0)
+	syscall.Umask(0)
+	defer syscall.Umask(0o022)
+	root, osr := fsx.NewEnv(m), fsx.NewEnv(kern.FS())
+	uid, gid := c03Users[1][0], c03Users[1][1]
+	for _, o := range []fsx.Op{{K: "Mkdir", P: "/w", Perm: 0o777}, {K: "Chmod", P: "/w", Perm: 0o777}, {K: "WriteFile", P: "/w/f", Data: "0123456789abcdefghij", Perm: 0o644},
+		{K: "Chown", P: "/w/f", N: int64(uid), M: int64(gid)}, {K: "Chmod", P: "/w/f", Perm: []uint32{0o644, 0o600, 0o664, 0o200, 0o400}[r.IntN(5)]}} {
+		if a, b := root.Exec(o), osr.Exec(o); !a.Same(b) {
+			return // C01's business
+		}
+	}
+	v, err := m.Sub("/")
+	if err != nil {
+		return
+	}
+	_ = v.SetUser(users[1])
+	_ = v.SetUMask(0)
+	emu := fsx.NewEnv(v)
+	defer emu.CloseAll()
+	defer osr.CloseAll()
+	var hist []string
+	steps := []fsx.Op{{K: "OpenFile", P: "/w/f", Flag: []int{syscall.O_RDWR, syscall.O_WRONLY, syscall.O_RDONLY, syscall.O_WRONLY | syscall.O_APPEND}[r.IntN(4)], H: 0}, {K: "OpenFile", P: "/w/f", Flag: syscall.O_RDONLY, H: 1}}
+	pool := []fsx.Op{{K: "Chmod", P: "/w/f", Perm: 0o444}, {K: "Chmod", P: "/w/f", Perm: 0}, {K: "Chmod", P: "/w/f", Perm: 0o200}, {K: "Chmod", P: "/w/f", Perm: 0o644}, {K: "F.Chmod", H: 0, Perm: 0o400}, {K: "F.Chmod", H: 1, Perm: 0o600},
+		{K: "F.Truncate", H: 0, N: 5}, {K: "F.Truncate", H: 0, N: 30}, {K: "F.Truncate", H: 1, N: 2}, {K: "F.Write", H: 0, Data: "WW"}, {K: "F.Write", H: 1, Data: "RR"}, {K: "F.WriteAt", H: 0, Data: "A", N: 3},
+		{K: "F.Read", H: 0, N: 4}, {K: "F.Read", H: 1, N: 4}, {K: "F.ReadAt", H: 1, N: 4, M: 1}, {K: "F.Stat", H: 0}, {K: "F.Seek", H: 0, N: 0, M: 0}, {K: "Truncate", P: "/w/f", N: 7}, {K: "ReadFile", P: "/w/f"},
+		{K: "OpenFile", P: "/w/f", Flag: syscall.O_RDWR, H: 2}, {K: "OpenFile", P: "/w/f", Flag: syscall.O_WRONLY | syscall.O_TRUNC, H: 2}, {K: "F.Chown", H: 0, N: -1, M: int64(gid)}}
+	for i := 0; i < 14; i++ {
+		steps = append(steps, pool[r.IntN(len(pool))])
+	}
+	for i, o := range steps {
+		var a, b fsx.Res
+		a = emu.Exec(o)
+		if err := kern.AsUser(uid, gid, func() { b = osr.Exec(o) }); err != nil {
+			c.Rep.Inconclusive = append(c.Rep.Inconclusive, "cannot switch fsuid: "+err.Error())
+			return
+		}
+		hist = append(hist, o.String()+" -> "+a.String())
+		cls := o.K
+		if o.K == "OpenFile" {
+			cls += "[" + fsx.FlagString(o.Flag) + "]"
+		}
+		c.Rep.Case(fmt.Sprintf("MemFS|owner-handles|%s|%s", cls, a.Err), i > 0)
+		if fatalRes(a) {
+			return
+		}
+		if a.Err == "nohandle" && b.Err == "nohandle" {
+			continue
+		}
+		if !a.Same(b) {
+			c.Disagree(fmt.Sprintf("MemFS|owner-handles|%s|emu=%s|os=%s", cls, a.Err, b.Err), fmt.Sprintf("MemFS, user %d:%d owning the file: %s returns %s but %s with os.File on Linux under the same ids (history %v)", uid, gid, o, a, b, hist), map[string]any{"history": hist})
+			return
+		}
+		sa, sb := fsx.Snap(m, "/w", fsx.SnapOpts{}), fsx.Snap(kern.FS(), "/w", fsx.SnapOpts{})
+		if sa.String() != sb.String() {
+			c.Disagree(fmt.Sprintf("MemFS|owner-handles|%s|%s|tree-differs", cls, a.Err), fmt.Sprintf("MemFS, user %d:%d owning the file: after %v the file differs from Linux: %v", uid, gid, hist, fsx.Diff(sa, sb, false, 4)), map[string]any{"history": hist})
+			return
+		}
+	}
+	c.Rep.Count("owner_handle_scenarios", 1)
+}
+
 func init() {
 	register(&Check{
 		Prop:   "C02",
@@ -495,6 +566,7 @@ func init() {
 		},
 		Run: func(c *rt.Ctx) {
 			hook.Sequential()
+			kern.LockThread() // the owner-handle scenarios switch the fsuid of this thread
 			syscall.Umask(0o022)
 			_ = kern.InChroot()
 			for _, fsType := range []string{"MemFS", "OrefaFS"} {
@@ -507,6 +579,9 @@ func init() {
 					c02Scenario(c, fsType, r, nil, -1)
 					c02Dir(c, fsType, r, false)
 					c02Chdir(c, fsType, r)
+					if fsType == "MemFS" && h%4 == 0 {
+						c02Owner(c, c.Rand(fmt.Sprintf("c02-owner-%d", h)))
+					}
 				}
 				// files of several MiB
 				for h := 0; h < c.Pick(24, 480); h++ {
